@@ -3,9 +3,10 @@
 # and runs the harness self-tests (M-rules perft, curated starts). Exit 2 = harness trouble.
 export GOFLAGS=-mod=mod GOPROXY=off GOSUMDB=off GOTOOLCHAIN=local
 set -e
-cd /verif/sim
-mkdir -p /verif/bin /verif/evidence /verif/replays
-go1.26.8 build -o /verif/bin/check ./cmd/check
-go1.26.8 test -c -tags verif -o /verif/bin/worker.test ./worker
-VERIF_JOB='{"mode":"selftest"}' /verif/bin/worker.test -test.run '^TestWorker$' | grep -q '@@OK' || { echo "HARNESS-TROUBLE: self-test failed"; exit 2; }
+V=${VERIF_DIR:-/verif}
+cd $V/sim
+mkdir -p $V/bin $V/evidence $V/replays
+go1.26.8 build -o $V/bin/check ./cmd/check
+go1.26.8 test -c -tags verif -o $V/bin/worker.test ./worker
+VERIF_JOB='{"mode":"selftest"}' $V/bin/worker.test -test.run '^TestWorker$' | grep -q '@@OK' || { echo "HARNESS-TROUBLE: self-test failed"; exit 2; }
 echo "setup ok"
